@@ -25,7 +25,7 @@ from fractions import Fraction as F
 import core
 from core import cz, cq, clist, ctuple, cbool
 
-EXPECT_MIN = 11
+EXPECT_MIN = 19
 PAIRS = [(480, 500000), (96, 600000), (1000, 333333), (1, 10 ** 6), (4, 250000), (384, 250000), (960, 1000000)]
 KEYNAMES = ["Cb", "Gb", "Db", "Ab", "Eb", "Bb", "F", "C", "G", "D", "A", "E", "B", "F#", "C#",
             "Abm", "Ebm", "Bbm", "Fm", "Cm", "Gm", "Dm", "Am", "Em", "Bm", "F#m", "C#m", "G#m", "D#m", "A#m"]
@@ -194,7 +194,7 @@ def gen_perf(rng):
             metas.append(d)
         parts.append(dict(notes=notes, ctrls=ctrls, progs=progs, keys=keys, tsigs=tsigs, metas=metas))
     return dict(ppq=ppq, mpq=mpq, kind=kind, ms=ms, ml=ml, parts=parts, file=rng.random() < 0.12,
-                via_load_performance=rng.random() < 0.5)
+                via_load_performance=rng.random() < 0.5, again=rng.random() < 0.3)
 
 
 def build_parts(case):
@@ -429,8 +429,8 @@ def group_failures(g, o, gname, tname):
 EMPTY = dict(notes=[], ctrls=[], progs=[], keys=[], tsigs=[], metas=[], dflt=set())
 
 
-def oracle_roundtrip(case, obs):
-    """load(save(p)) against p, by the property's words"""
+def oracle_roundtrip(case, obs, tmap):
+    """load(save(p)) against p, by the property's words; tmap: saved_track_numbers"""
     ppq, mpq = case["ppq"], case["mpq"]
     merged = case["ms"] or case["ml"]
     bad = []
@@ -448,27 +448,53 @@ def oracle_roundtrip(case, obs):
                 bad.append("event time %r s is not tick %d * mpq / (10^6 ppq) = %s" % (x["t"], x["tick"], float(sec(x["tick"]))))
     G = expected_groups(case)
     T = observed_tracks(obs)
-    gkeys, tkeys = sorted(G), sorted(T)
-    if merged or case["kind"] != "perf":
-        # tracks merged: everything on track 0.  PerformedPart / list: the same track (one file track per
-        # track number, so that numbers 0..n-1 come back as they are; other numbers are compared by rank)
-        for i, gk in enumerate(gkeys):
-            bad += group_failures(G[gk], T.get(i, EMPTY), "track %s" % (gk if merged else gk[0]), i)
-        for t in tkeys:
-            if t >= len(gkeys):
-                bad.append("items on track %d after save->load of a performance with %d track(s)" % (t, len(gkeys)))
-    else:
-        adj = [[j for j, t in enumerate(tkeys) if not group_failures(G[gk], T[t], "", t)] for gk in gkeys]
-        ml, mr = kuhn(adj, len(tkeys))
-        if -1 in ml or -1 in mr:
-            # name the difference against the numbering in order of (part, track)
-            for i, gk in enumerate(gkeys):
-                if ml[i] == -1:
-                    bad += group_failures(G[gk], T.get(i, EMPTY), "part %d track %d" % gk, i)
-            if not bad:
-                bad.append("after save->load the items carry track numbers %s; the performance has %d (part, track) pairs %s"
-                           % (tkeys, len(gkeys), gkeys))
+    # the same track: everything on track 0 when tracks are merged on either side; otherwise the number
+    # the items carry when the exporter is called (one file track per number, so numbers 0..n-1 -- what a
+    # Performance always has -- come back as they are; other numbers of a PerformedPart / list by rank)
+    numbers = sorted(set(tmap.values()))
+    want = {g: (0 if merged else numbers.index(tmap[g])) for g in G}
+    for g in sorted(G, key=lambda g: (want[g], str(g))):
+        gname = "all tracks" if merged else ("part %d track %d" % g if case["kind"] == "perf" else "track %d" % g[0])
+        bad += group_failures(G[g], T.get(want[g], EMPTY), gname, want[g])
+    for t in sorted(T):
+        if t not in want.values():
+            bad.append("items with track number %d after save->load; expected track numbers %s" % (t, sorted(set(want.values()))))
     return bad + oracle_ids(obs)
+
+
+def canon(obs):
+    """the observed items of every part, as sorted lists (ticks, not seconds)"""
+    return [dict(notes=sorted((n["pitch"], n["vel"], n["ch"], n["track"], n["on_tick"], n["off_tick"]) for n in p["notes"]),
+                 ctrls=sorted((c["number"], c["value"], c["ch"], c["track"], c["tick"]) for c in p["ctrls"]),
+                 progs=sorted((x["program"], x["ch"], x["track"], x["tick"]) for x in p["progs"]),
+                 keys=sorted((x["fifths"], x["mode"], x["track"], x["tick"]) for x in p["keys"]),
+                 tsigs=sorted((x["beats"], x["beat_type"], x["track"], x["tick"]) for x in p["tsigs"]),
+                 metas=sorted((x["key"], x["track"], x["tick"]) for x in p["metas"] if x["type"] != "end_of_track"))
+            for p in obs]
+
+
+def saved_track_numbers(case, pps):
+    """group (see expected_groups) -> the track number its items carry when the exporter is called.  For a
+    Performance these are the numbers its constructor gave (sanitize_track_numbers); whatever they are, the
+    notes, controls and programs of one (part, track) must have got one number and different pairs
+    different numbers."""
+    merged = case["ms"] or case["ml"]
+    tmap, bad = {}, []
+    for k, (part, pp) in enumerate(zip(case["parts"], pps)):
+        for name, built in (("notes", pp.notes), ("ctrls", pp.controls), ("progs", pp.programs)):
+            for x, y in zip(part[name], built):
+                g = (k, x["track"]) if case["kind"] == "perf" else (x["track"],)
+                tmap.setdefault(g, set()).add(int(y["track"]))
+    inconsistent = {str(g): sorted(v) for g, v in tmap.items() if len(v) != 1}
+    if inconsistent:
+        bad.append("Performance(...) gave the notes / controls / programs of one (part, track) different track numbers: %s" % inconsistent)
+    nums = [min(v) for v in tmap.values()]
+    if len(set(nums)) != len(nums):
+        bad.append("Performance(...) gave two (part, track) pairs the same track number: %s" % {str(g): sorted(v) for g, v in tmap.items()})
+    out = {g: min(v) for g, v in tmap.items()}
+    if merged:
+        out = {0: 0}
+    return out, bad
 
 
 def run_perf_case(case, workdir=None):
@@ -481,6 +507,9 @@ def run_perf_case(case, workdir=None):
         inp, pps = build_parts(case)
     except Exception as e:
         return ["building the performance raised %s: %s" % (type(e).__name__, e)], None
+    tmap, bad = saved_track_numbers(case, pps)
+    if bad:
+        return bad, None
     try:
         mf = save_performance_midi(inp, None, mpq=case["mpq"], ppq=case["ppq"], merge_tracks_save=case["ms"])
     except Exception as e:
@@ -500,7 +529,32 @@ def run_perf_case(case, workdir=None):
     except Exception as e:
         return ["loading the saved file raised %s: %s" % (type(e).__name__, e)], None
     obs = observe_perf(perf)
-    return oracle_roundtrip(case, obs), (pps, mf, obs)
+    bad = oracle_roundtrip(case, obs, tmap)
+    if not bad and case.get("again"):
+        # second leg: the loaded Performance is a performance like any other (its times are on ticks
+        # already): saving and loading it once more has to return the same items
+        try:
+            mf2 = save_performance_midi(perf, None, mpq=case["mpq"], ppq=case["ppq"], merge_tracks_save=False)
+            obs2 = observe_perf(load_performance_midi(mf2, merge_tracks=False))
+        except Exception as e:
+            return ["saving / loading the loaded performance again raised %s: %s" % (type(e).__name__, e)], None
+        a, b = canon(obs), canon(obs2)
+        for k in range(min(len(a), len(b))):
+            # a loaded part without program changes may get the exporter's default program 0 on its channels
+            extra = list(b[k]["progs"])
+            for x in a[k]["progs"]:
+                if x in extra:
+                    extra.remove(x)
+            chans = {n[2] for n in a[k]["notes"]} | {c[2] for c in a[k]["ctrls"]}
+            if not a[k]["progs"] and all(x[0] == 0 and x[1] in chans for x in extra):
+                b[k]["progs"] = a[k]["progs"]
+        if a != b:
+            diff = [(k, name) for k in range(max(len(a), len(b))) for name in sorted(WHAT)
+                    if k >= len(a) or k >= len(b) or a[k][name] != b[k][name]]
+            k, name = diff[0]
+            bad.append("second save->load of the loaded performance changes the %s of part %d: %s -> %s"
+                       % (WHAT[name], k, a[k][name][:4] if k < len(a) else None, b[k][name][:4] if k < len(b) else None))
+    return bad, (pps, mf, obs)
 
 
 # ----------------------------------------------------------------------------
@@ -727,7 +781,7 @@ def corpus_perf():
     for kind in ("list", "perf", "pp"):
         for ms in (False, True):
             out.append(dict(ppq=480, mpq=500000, kind=kind, ms=ms, ml=False, parts=[json.loads(json.dumps(part)), json.loads(json.dumps(part2))][: (1 if kind == "pp" else 2)],
-                            file=(kind == "list"), via_load_performance=True))
+                            file=(kind == "list"), via_load_performance=True, again=True))
     return out
 
 
@@ -747,7 +801,8 @@ def run(ctx):
                 "zero-length notes; velocities 1..127; channels 0..15; track pools incl. non-contiguous numbers and numbers shared between parts), "
                 "0-9 controls of any number/value, 0-2 programs (so both explicit programs and default insertion; programs also on tracks without notes), "
                 "key/time signatures, text-like meta events; input kind Performance/list/PerformedPart; merge_tracks_save and merge_tracks each 30%; "
-                "ppq/mpq from 7 pairs or random; 12% through a real file (half of them through load_performance).  Notes that would overlap or touch "
+                "ppq/mpq from 7 pairs or random; 12% through a real file (half of them through load_performance); 30% with a second leg (the loaded "
+                "Performance saved and loaded once more, must come back unchanged).  Notes that would overlap or touch "
                 "another note of the same (file track, channel, pitch) at tick resolution are dropped (proviso of C06).  (b) MIDI files: 1-4 tracks x 0-20 "
                 "events, ppq from 7 values, set_tempo events in no / the first / any / only later tracks incl. repeated values and equal ticks, "
                 "zero-velocity note-ons, stray note-offs, unclosed notes, notes touching at one tick, pitch bends, end_of_track present or not, "
@@ -760,8 +815,9 @@ def run(ctx):
         "'overlap' is read at tick resolution on closed intervals: two notes of one (track, channel, pitch) whose tick intervals share a tick are outside C06's proviso",
         "program 0 on a (channel, track) pair of a part without program changes (the exporter's documented default) is accepted, at any tick, and not required",
         "end_of_track meta events (written by mido) are ignored when meta events are compared",
-        "track numbers: merged -> 0; PerformedPart / list: one file track per distinct track number, numbers 0..n-1 come back unchanged, other numbers are compared by rank; "
-        "Performance (its constructor renumbers tracks shared between parts): notes, controls and programs of one (part, track) come back on one track number, different pairs on different numbers",
+        "track numbers: merged -> 0; otherwise the number an item carries when the exporter is called (for a Performance: the number its constructor gave -- "
+        "any numbering, provided the notes, controls and programs of one (part, track) got one number and different pairs different numbers); numbers 0..n-1 "
+        "come back unchanged, other numbers of a PerformedPart / list are compared by rank (one file track per distinct number, in increasing order)",
         "controls, programs, signatures and meta events are compared as multisets per track (their list order is not named by C06); ids: distinct, and ordered by the number they end in",
         "of several set_tempo events at one tick the one read last (track order, then position) is taken to be in force",
         "seconds are compared with relative tolerance 1e-9 against exact rational arithmetic",
@@ -792,6 +848,8 @@ def run(ctx):
         ctx.evaluations += 1
         ctx.count("a:input=%s" % case["kind"])
         ctx.count("a:merge_save=%s,merge_load=%s" % (case["ms"], case["ml"]))
+        if case.get("again"):
+            ctx.count("a:second save->load leg")
         if bad:
             if n_viol < 5:
                 def still(sub_parts):
